@@ -1,5 +1,5 @@
 import RpmVerif.Model.Header
-import RpmVerif.Model.Cpio
+import RpmVerif.Spec.RpmTagTypes
 /-!
 # Spec for C09: rpm's structural rules as decidable propositions
 
@@ -11,8 +11,9 @@ and store have the announced sizes), so that the same definitions are the subjec
 `Props/C09.lean` and, through `decide`, the validator the driver runs on the bytes of every emitted package.
 
 Every rule has a stable short name (`firstViolation`): `lead`, `intro-sizes`, `region`, `tags-ascending`,
-`type`, `count-zero`, `alignment`, `string-term`, `range`, `overlap`, `sig-padding`, `compressor-magic`,
-`rpmlib`, `cpio-entry`, `cpio-order`, `cpio-trailer`.
+`type`, `count-zero`, `alignment`, `string-term`, `range`, `overlap`, `sig-limits`, `tag-type`, `sig-padding`, `compressor-magic`,
+`payload-flags`, `rpmlib`, `cpio-entry`, `cpio-order`, `cpio-trailer`, and — judged last, so that they never hide another rule —
+`rpmlib-tilde`, `rpmlib-caret`, `rpmlib-rich`, `rpmlib-interp-args`.
 
 Numbers (tag values, limits, magics) are written out here as rpm defines them — they are NOT taken from the
 tables generated from rpm-rs, so that a wrong constant in rpm-rs is a failure, not an agreement.
@@ -25,7 +26,14 @@ external check is that all rpm-built packages in /repo/test_assets are judged va
 * `count ≥ 1`; STRING entries have `count = 1` (`dataLength` returns -1 otherwise);
 * data must end at or before the region trailer (rpm checks `end ≤ rdl`, `rdl` being the END of the trailer;
   "non-overlapping" in the property text includes the trailer, so the stricter bound is used);
-* tags strictly ascending is a property-level rule (rpm sorts the index on load).
+* tags strictly ascending is a property-level rule (rpm sorts the index on load);
+* the signature header obeys the tighter limits of `hdrblobRead` (`il_max = 32`, `dl_max = 64 MiB` for `RPMTAG_HEADERSIGNATURES`);
+* the main header's known tags carry the data type of rpm's tag table (`hdrchkTagType`, Spec/RpmTagTypes.lean); rpm does not
+  type-check signature headers;
+* the cpio archive is read by an INDEPENDENT transcription of the newc format as rpm reads it (`rpmcpioHeaderRead`), not by the model
+  of rpm-rs' own reader: numeric fields are exactly eight hexadecimal digits (rpm-rs' `u32::from_str_radix` would also take `+1234567`);
+* rpmlib() features: the nine of the first version plus the four rpmbuild adds from the CONTENT of dependencies and scriptlets
+  (build/pack.c `haveCharInDep('~')` / `('^')`, `haveRichDep`; build/parseScript.c: an interpreter with arguments).
 -/
 namespace RpmVerif.RpmValid
 open RpmVerif RpmVerif.Hdr
@@ -192,6 +200,20 @@ theorem headerViolation_none (rt : Nat) (h : Header) : headerViolation rt h = no
   · rintro ⟨a, b, c, d, e, f, g, i, j⟩
     simp only [a, b, c, d, e, f, g, i, j, not_true_eq_false, if_false]
 
+/-! ## signature header limits, tag types (main header) -/
+
+/-- `sig-limits`: `hdrblobRead` with `regionTag == RPMTAG_HEADERSIGNATURES`: `il_max = 32`, `dl_max = 64 * 1024 * 1024`
+(`hdrchkRange(max, x)` rejects `x > max`) -/
+def SigLimits (sig : Header) : Prop := sig.nEntries ≤ 32 ∧ sig.dataSize ≤ 67108864
+
+instance (sig : Header) : Decidable (SigLimits sig) := by unfold SigLimits; exact inferInstance
+
+/-- `tag-type`: every entry of the MAIN header whose tag rpm's tag table knows carries the table's data type
+(`hdrblobVerifyInfo`: `typechk && hdrchkTagType(info.tag, info.type)`; `typechk` is off for signature headers) -/
+def TagTypesOk (h : Header) : Prop := ∀ e ∈ body h, tagTypeOk e.tag e.data.typeCode = true
+
+instance (h : Header) : Decidable (TagTypesOk h) := by unfold TagTypesOk; exact inferInstance
+
 /-! ## signature header padding -/
 
 /-- `sig-padding`: the signature header (intro 16 bytes + 16·il + dl, starting after the 96-byte lead) is
@@ -229,6 +251,7 @@ def tLONGFILESIZES : Nat := 5008
 def tFILEMODES : Nat := 1030
 def tREQUIRENAME : Nat := 1049
 def tPAYLOADCOMPRESSOR : Nat := 1125
+def tPAYLOADFLAGS : Nat := 1126
 def tFILECAPS : Nat := 5010
 def tFILEDIGESTALGO : Nat := 5011
 
@@ -269,36 +292,105 @@ def CpioErr.name : CpioErr → String
 /-- "TRAILER!!!" -/
 def trailerName : Bytes := [84, 82, 65, 73, 76, 69, 82, 33, 33, 33]
 
-/-- walk the archive with the newc reader: entry `i` must be a newc entry named like header file `i` with
-its size and mode (or, in the stripped form rpm uses for files > 4 GiB, carry the index `i`), header + name
-and data each padded to a multiple of 4 (the reader consumes the padding; a missing pad derails the next
-magic), and after the last file comes the `TRAILER!!!` entry. `sizes` = the header's file sizes. -/
-def cpioCheck (sizes : List Nat) : Nat → List FileExp → Bytes → Option CpioErr
+/-! ### the newc format as rpm reads it (`lib/cpio.c`: `rpmcpioHeaderRead`, `GET_NUM_FIELD`, `rpmcpioReadPad`)
+
+An independent transcription — nothing below refers to `Model/Cpio.lean`, the model of rpm-rs' own reader and writer, so that a change
+made symmetrically in rpm-rs' writer and reader still fails here. An entry is the 6-byte magic `070701` (newc) or `070702` (crc), thirteen
+numeric fields of EXACTLY eight hexadecimal digits (ino, mode, uid, gid, nlink, mtime, filesize, devmajor, devminor, rdevmajor, rdevminor,
+namesize, check), `namesize` bytes of name ending in NUL (`1 ≤ namesize ≤ 4096`: rpm rejects `nameSize <= 0 || nameSize > 4096`), padding
+to a multiple of 4 counted from the start of the entry, `filesize` bytes of data, padding to a multiple of 4.  rpm's own large-file form is
+the magic `07070X`, one eight-digit field (the index of the file in the header) and padding to 16 bytes. -/
+
+/-- value of one hexadecimal digit, either case -/
+def hexDigit? (b : UInt8) : Option Nat :=
+  if 48 ≤ b.toNat ∧ b.toNat ≤ 57 then some (b.toNat - 48)
+  else if 97 ≤ b.toNat ∧ b.toNat ≤ 102 then some (b.toNat - 87)
+  else if 65 ≤ b.toNat ∧ b.toNat ≤ 70 then some (b.toNat - 55)
+  else none
+
+/-- a numeric field: exactly eight hexadecimal digits — no sign, no blank, no `0x` -/
+def hexField : Bytes → Option Nat
+  | [a, b, c, d, e, f, g, h] => do
+    let a ← hexDigit? a; let b ← hexDigit? b; let c ← hexDigit? c; let d ← hexDigit? d
+    let e ← hexDigit? e; let f ← hexDigit? f; let g ← hexDigit? g; let h ← hexDigit? h
+    pure (a * 268435456 + b * 16777216 + c * 1048576 + d * 65536 + e * 4096 + f * 256 + g * 16 + h)
+  | _ => none
+
+/-- read one numeric field off the stream -/
+def rdField (bs : Bytes) : Option (Nat × Bytes) := (hexField (bs.take 8)).map fun n => (n, bs.drop 8)
+
+/-- skip `n` bytes that must be there -/
+def skipN (n : Nat) (bs : Bytes) : Option Bytes := if n ≤ bs.length then some (bs.drop n) else none
+
+/-- bytes needed to reach the next multiple of 4 -/
+def pad4 (n : Nat) : Nat := (4 - n % 4) % 4
+
+/-- what an archive entry header says -/
+inductive ArchEntry where
+  | newc (name : Bytes) (mode nlink size : Nat)
+  | stripped (idx : Nat)
+  deriving DecidableEq, Repr
+
+/-- one entry header: the entry and the stream after the header and its padding -/
+def readEntry (bs : Bytes) : Option (ArchEntry × Bytes) :=
+  if bs.take 6 = [48, 55, 48, 55, 48, 49] ∨ bs.take 6 = [48, 55, 48, 55, 48, 50] then do
+    let (_, r) ← rdField (bs.drop 6)        -- ino
+    let (mode, r) ← rdField r
+    let (_, r) ← rdField r                  -- uid
+    let (_, r) ← rdField r                  -- gid
+    let (nlink, r) ← rdField r
+    let (_, r) ← rdField r                  -- mtime
+    let (size, r) ← rdField r
+    let (_, r) ← rdField r                  -- devmajor
+    let (_, r) ← rdField r                  -- devminor
+    let (_, r) ← rdField r                  -- rdevmajor
+    let (_, r) ← rdField r                  -- rdevminor
+    let (namesize, r) ← rdField r
+    let (_, r) ← rdField r                  -- check
+    if namesize = 0 ∨ 4096 < namesize ∨ r.length < namesize then none
+    else if (r.take namesize).getLast? ≠ some 0 then none
+    else do
+      let r' ← skipN (pad4 (110 + namesize)) (r.drop namesize)
+      pure (.newc ((r.take namesize).takeWhile (· != 0)) mode nlink size, r')
+  else if bs.take 6 = [48, 55, 48, 55, 48, 88] then do
+    let (idx, r) ← rdField (bs.drop 6)
+    let r' ← skipN 2 r
+    pure (.stripped idx, r')
+  else none
+
+/-- skip the data of an entry and its padding -/
+def skipData (size : Nat) (bs : Bytes) : Option Bytes := skipN (size + pad4 size) bs
+
+/-- walk the archive: entry `i` must be a newc entry named like header file `i` with its size and mode (or, in the
+stripped form rpm uses for files > 4 GiB, carry the index `i`; its data then have the header's size), header + name
+and data each padded to a multiple of 4 (a missing pad derails the next magic), and after the last file comes the
+`TRAILER!!!` entry (or rpm's stripped end marker, index ffffffff). -/
+def cpioCheck : Nat → List FileExp → Bytes → Option CpioErr
   | _, [], bs =>
-    match Cpio.readerNew sizes bs with
-    | .ok (.cpio e, _, _) => if e.name = trailerName then none else some .trailer
-    | _ => some .trailer
+    match readEntry bs with
+    | some (.newc name _ _ _, _) => if name = trailerName then none else some .trailer
+    | some (.stripped idx, _) => if idx = 4294967295 then none else some .trailer
+    | none => some .trailer
   | i, f :: fs, bs =>
-    match Cpio.readerNew sizes bs with
-    | .ok (.cpio e, fileSize, r) =>
-      if e.name ≠ f.name then some .order
-      else if fileSize ≠ f.size ∨ e.mode ≠ f.mode then some .entry
-      else match Cpio.readData fileSize r with
-        | .ok (_, r') => cpioCheck sizes (i + 1) fs r'
-        | _ => some .entry
-    | .ok (.stripped idx, fileSize, r) =>
+    match readEntry bs with
+    | some (.newc name mode _ size, r) =>
+      if name ≠ f.name then some .order
+      else if size ≠ f.size ∨ mode ≠ f.mode then some .entry
+      else match skipData size r with
+        | some r' => cpioCheck (i + 1) fs r'
+        | none => some .entry
+    | some (.stripped idx, r) =>
       if idx ≠ i then some .order
-      else if fileSize ≠ f.size then some .entry
-      else match Cpio.readData fileSize r with
-        | .ok (_, r') => cpioCheck sizes (i + 1) fs r'
-        | _ => some .entry
-    | _ => some .entry
+      else match skipData f.size r with
+        | some r' => cpioCheck (i + 1) fs r'
+        | none => some .entry
+    | none => some .entry
 
 /-- result of the cpio rules for a header and the decompressed archive -/
 def cpioViolation (h : Header) (arch : Bytes) : Option CpioErr :=
   match headerFiles h with
   | none => some .entry
-  | some fs => cpioCheck (fs.map (·.size)) 0 fs arch
+  | some fs => cpioCheck 0 fs arch
 
 /-- `cpio-entry` / `cpio-order` / `cpio-trailer`: the decompressed payload is a well-formed cpio archive
 listing exactly the header's files, in header order, with matching names, sizes and modes -/
@@ -337,6 +429,19 @@ def CompressorMagic (h : Header) (payload : Bytes) : Prop :=
 instance (h : Header) (payload : Bytes) : Decidable (CompressorMagic h payload) := by
   unfold CompressorMagic; split <;> (try split) <;> exact inferInstance
 
+/-- `payload-flags`: PAYLOADFLAGS, when present, is a plain STRING entry. rpm reads PAYLOADCOMPRESSOR / PAYLOADFLAGS with
+`headerGetString`, which answers NULL for any other type (a STRING_ARRAY compressor name would silently mean "gzip"; that case is
+already rejected by `CompressorMagic`). rpm never interprets the text when it reads a package (it opens the payload with
+`"r." + compressor`), and its own packages carry `""`, `"2"`, `"19"`, `"19T0"`: nothing is demanded of the text. -/
+def PayloadFlagsOk (h : Header) : Prop :=
+  match find h tPAYLOADFLAGS with
+  | none => True
+  | some (.str _) => True
+  | some _ => False
+
+instance (h : Header) : Decidable (PayloadFlagsOk h) := by
+  unfold PayloadFlagsOk; split <;> exact inferInstance
+
 /-- "rpmlib(" ++ feature ++ ")" -/
 def rpmlibName (feature : Bytes) : Bytes := [114, 112, 109, 108, 105, 98, 40] ++ feature ++ [41]
 
@@ -351,12 +456,50 @@ def fCompressedFileNames : Bytes :=
 def fFileDigests : Bytes := [70, 105, 108, 101, 68, 105, 103, 101, 115, 116, 115]
 def fPayloadFilesHavePrefix : Bytes :=
   [80, 97, 121, 108, 111, 97, 100, 70, 105, 108, 101, 115, 72, 97, 118, 101, 80, 114, 101, 102, 105, 120]
+/-- "TildeInVersions", "CaretInVersions", "RichDependencies", "ScriptletInterpreterArgs" -/
+def fTildeInVersions : Bytes := [84, 105, 108, 100, 101, 73, 110, 86, 101, 114, 115, 105, 111, 110, 115]
+def fCaretInVersions : Bytes := [67, 97, 114, 101, 116, 73, 110, 86, 101, 114, 115, 105, 111, 110, 115]
+def fRichDependencies : Bytes := [82, 105, 99, 104, 68, 101, 112, 101, 110, 100, 101, 110, 99, 105, 101, 115]
+def fScriptletInterpreterArgs : Bytes :=
+  [83, 99, 114, 105, 112, 116, 108, 101, 116, 73, 110, 116, 101, 114, 112, 114, 101, 116, 101, 114, 65, 114, 103, 115]
 
-/-- the rpmlib() features a header *uses*: the payload compressor (zstd / xz / bzip2 / lzma), file
+/-- the strings of a STRING_ARRAY entry, `[]` when the tag is absent (or of another type) -/
+def strsAt (h : Header) (tag : Nat) : List Bytes := (strsOf h tag).getD []
+
+/-- `depevrtags[]` of build/pack.c: PROVIDEVERSION, REQUIREVERSION, OBSOLETEVERSION, CONFLICTVERSION, ORDERVERSION, TRIGGERVERSION,
+SUGGESTVERSION, ENHANCEVERSION, RECOMMENDVERSION, SUPPLEMENTVERSION -/
+def depEvrTags : List Nat := [1113, 1050, 1115, 1055, 5036, 1067, 5050, 5056, 5047, 5053]
+
+/-- `haveCharInDep(pkg, c)`: some dependency version contains the character (every package provides itself, so a `~` / `^` in its
+own version or release is seen here too) -/
+def evrHasChar (h : Header) (c : UInt8) : Bool := depEvrTags.any fun t => (strsAt h t).any fun v => v.contains c
+
+/-- the dependency kinds `haveRichDep` looks at: REQUIRENAME, RECOMMENDNAME, SUGGESTNAME, SUPPLEMENTNAME, ENHANCENAME, CONFLICTNAME -/
+def richNameTags : List Nat := [1049, 5046, 5049, 5052, 5055, 1054]
+
+/-- `haveRichDep(pkg)`: a dependency whose name starts with "(" (`rpmdsIsRich`) -/
+def hasRichDep (h : Header) : Bool := richNameTags.any fun t => (strsAt h t).any fun n => n.head? == some 40
+
+/-- the interpreter tags of the package scriptlets: PREINPROG, POSTINPROG, PREUNPROG, POSTUNPROG, VERIFYSCRIPTPROG, PRETRANSPROG,
+POSTTRANSPROG, PREUNTRANSPROG, POSTUNTRANSPROG -/
+def progTags : List Nat := [1085, 1086, 1087, 1088, 1091, 1153, 1154, 5105, 5106]
+
+/-- build/parseScript.c: `progArgc > 1` — an interpreter entry that holds more than the program (rpm writes a lone interpreter as a
+STRING, one with arguments as a STRING_ARRAY, and then adds the feature) -/
+def hasInterpArgs (h : Header) : Bool := progTags.any fun t => decide (1 < (strsAt h t).length)
+
+/-- the rpmlib() features rpmbuild derives from the CONTENT of dependencies and scriptlets -/
+def contentFeatures (h : Header) : List Bytes :=
+  (if evrHasChar h 126 then [fTildeInVersions] else []) ++
+  (if evrHasChar h 94 then [fCaretInVersions] else []) ++
+  (if hasRichDep h then [fRichDependencies] else []) ++
+  (if hasInterpArgs h then [fScriptletInterpreterArgs] else [])
+
+/-- the rpmlib() features a header uses because of its STRUCTURE: the payload compressor (zstd / xz / bzip2 / lzma), file
 capabilities (FILECAPS present), large files (LONGFILESIZES present), compressed file names (BASENAMES
 present), non-MD5 file digests (FILEDIGESTALGO present). `prefixed` = the archive names its files with the
 "./" prefix (always the case for archives accepted by `CpioValid` that contain a file). -/
-def featuresUsed (h : Header) (prefixed : Bool) : List Bytes :=
+def structFeatures (h : Header) (prefixed : Bool) : List Bytes :=
   (match strOf h tPAYLOADCOMPRESSOR with
    | some c => if c = sZstd then [fPayloadIsZstd] else if c = sXz then [fPayloadIsXz]
                else if c = sBzip2 then [fPayloadIsBzip2] else if c = sLzma then [fPayloadIsLzma] else []
@@ -367,12 +510,30 @@ def featuresUsed (h : Header) (prefixed : Bool) : List Bytes :=
   (if (find h tFILEDIGESTALGO).isSome then [fFileDigests] else []) ++
   (if prefixed then [fPayloadFilesHavePrefix] else [])
 
+/-- **the rpmlib() features a header uses** (what rpmbuild would declare for it): structure, then content -/
+def featuresUsed (h : Header) (prefixed : Bool) : List Bytes := structFeatures h prefixed ++ contentFeatures h
+
+/-- is the feature among the header's `rpmlib(…)` requirements -/
+def declared (h : Header) (f : Bytes) : Bool := (strsAt h tREQUIRENAME).contains (rpmlibName f)
+
 /-- `rpmlib`: every feature the package uses is declared as a `rpmlib(…)` requirement -/
 def RpmlibDeclared (h : Header) (prefixed : Bool) : Prop :=
-  ∀ f ∈ featuresUsed h prefixed, rpmlibName f ∈ (strsOf h tREQUIRENAME).getD []
+  ∀ f ∈ featuresUsed h prefixed, rpmlibName f ∈ strsAt h tREQUIRENAME
 
 instance (h : Header) (prefixed : Bool) : Decidable (RpmlibDeclared h prefixed) := by
   unfold RpmlibDeclared; exact inferInstance
+
+/-- the same for a sub-list of the features (diagnostics: which kind is missing) -/
+def allDeclared (h : Header) (fs : List Bytes) : Bool := fs.all (declared h)
+
+/-- name of the rule a missing content feature is reported under -/
+def contentRuleName (f : Bytes) : String :=
+  if f = fTildeInVersions then "rpmlib-tilde" else if f = fCaretInVersions then "rpmlib-caret"
+  else if f = fRichDependencies then "rpmlib-rich" else "rpmlib-interp-args"
+
+/-- first content feature that is used but not declared -/
+def contentViolation (h : Header) : Option String :=
+  ((contentFeatures h).find? fun f => !declared h f).map contentRuleName
 
 /-- files present in a header's file list -/
 def hasFiles (h : Header) : Bool := (find h tBASENAMES).isSome
@@ -384,49 +545,61 @@ def hasFiles (h : Header) : Bool := (find h tBASENAMES).isSome
 structure PackageValid (bytes : Bytes) (p : Package) (arch : Bytes) : Prop where
   lead : LeadValid p.md.lead
   sig : HeaderValid 62 p.md.signature
+  siglim : SigLimits p.md.signature
   hdr : HeaderValid 63 p.md.header
+  tagtypes : TagTypesOk p.md.header
   pad : SigPadding bytes p.md.signature
   magic : CompressorMagic p.md.header p.content
+  flags : PayloadFlagsOk p.md.header
   rpmlib : RpmlibDeclared p.md.header (hasFiles p.md.header)
   cpio : CpioValid p.md.header arch
 
 theorem packageValid_iff (bytes : Bytes) (p : Package) (arch : Bytes) : PackageValid bytes p arch ↔
-    (LeadValid p.md.lead ∧ HeaderValid 62 p.md.signature ∧ HeaderValid 63 p.md.header ∧
-     SigPadding bytes p.md.signature ∧ CompressorMagic p.md.header p.content ∧
-     RpmlibDeclared p.md.header (hasFiles p.md.header) ∧ CpioValid p.md.header arch) :=
-  ⟨fun v => ⟨v.lead, v.sig, v.hdr, v.pad, v.magic, v.rpmlib, v.cpio⟩,
-   fun ⟨a, b, c, d, e, f, g⟩ => ⟨a, b, c, d, e, f, g⟩⟩
+    (LeadValid p.md.lead ∧ HeaderValid 62 p.md.signature ∧ SigLimits p.md.signature ∧ HeaderValid 63 p.md.header ∧
+     TagTypesOk p.md.header ∧ SigPadding bytes p.md.signature ∧ CompressorMagic p.md.header p.content ∧
+     PayloadFlagsOk p.md.header ∧ RpmlibDeclared p.md.header (hasFiles p.md.header) ∧ CpioValid p.md.header arch) :=
+  ⟨fun v => ⟨v.lead, v.sig, v.siglim, v.hdr, v.tagtypes, v.pad, v.magic, v.flags, v.rpmlib, v.cpio⟩,
+   fun ⟨a, b, c, d, e, f, g, h, i, j⟩ => ⟨a, b, c, d, e, f, g, h, i, j⟩⟩
 
 instance (bytes : Bytes) (p : Package) (arch : Bytes) : Decidable (PackageValid bytes p arch) :=
   decidable_of_iff _ (packageValid_iff bytes p arch).symm
 
-/-- name of the first violated rule (diagnostics; the verdict is `decide (PackageValid …)`) -/
-def firstViolation (bytes : Bytes) (p : Package) (arch : Bytes) : Option String :=
+/-- the rules about header bytes and payload start that built and foreign packages share, in the order they are reported -/
+def commonViolation (bytes : Bytes) (p : Package) : Option String :=
   if ¬ LeadValid p.md.lead then some "lead"
   else match headerViolation 62 p.md.signature with
   | some r => some r
-  | none => match headerViolation 63 p.md.header with
+  | none =>
+    if ¬ SigLimits p.md.signature then some "sig-limits"
+    else match headerViolation 63 p.md.header with
     | some r => some r
     | none =>
-      if ¬ SigPadding bytes p.md.signature then some "sig-padding"
+      if ¬ TagTypesOk p.md.header then some "tag-type"
+      else if ¬ SigPadding bytes p.md.signature then some "sig-padding"
       else if ¬ CompressorMagic p.md.header p.content then some "compressor-magic"
-      else if ¬ RpmlibDeclared p.md.header (hasFiles p.md.header) then some "rpmlib"
-      else (cpioViolation p.md.header arch).map CpioErr.name
+      else if ¬ PayloadFlagsOk p.md.header then some "payload-flags"
+      else none
+
+/-- name of the first violated rule (diagnostics; the verdict is `decide (PackageValid …)`). The four content features come LAST:
+a package that breaks another rule as well is reported under that rule. -/
+def firstViolation (bytes : Bytes) (p : Package) (arch : Bytes) : Option String :=
+  match commonViolation bytes p with
+  | some r => some r
+  | none =>
+    if !allDeclared p.md.header (structFeatures p.md.header (hasFiles p.md.header)) then some "rpmlib"
+    else match cpioViolation p.md.header arch with
+    | some e => some e.name
+    | none => contentViolation p.md.header
 
 /-! ## foreign packages (rpm-built): what rpm guarantees about archive vs header
 
 A package rpm built may omit `%ghost` files from the archive, store hard-link sets with the content on the
 last member only, name files without the "./" prefix (source packages), and old ones carry MD5 digests.
-For such packages the header rules, the padding, the compressor magic and the rpmlib rule are checked as
-above (`prefixed` = what the archive actually does); of the cpio rules only this is demanded: the archive is a
+For such packages the header rules, the limits, the tag types, the padding, the compressor magic, the flags and the rpmlib rule are
+checked as above (`prefixed` = what the archive actually does); of the cpio rules only this is demanded: the archive is a
 well-formed sequence of newc entries up to `TRAILER!!!`, every entry names a file of the header (with or
 without the prefix), the files appear in header order, modes agree, and sizes agree except on members of a
 hard-link set that carry no data. -/
-
-def stripPrefix (name : Bytes) : Bytes :=
-  match name with
-  | 46 :: 47 :: r => 47 :: r
-  | _ => name
 
 /-- index ≥ `from` of the header file an archive name denotes: "." ++ path, or the path itself
 (source packages: the base name) -/
@@ -434,66 +607,70 @@ def findFile (fs : List FileExp) (start : Nat) (name : Bytes) : Option Nat :=
   let cands := [name, [46] ++ name, [46, 47] ++ name]
   ((fs.zipIdx).find? fun x => x.2 ≥ start && cands.contains x.1.name).map (·.2)
 
-def cpioCheckForeign (sizes : List Nat) (fs : List FileExp) : Nat → Nat → Bytes → Option CpioErr
+def cpioCheckForeign (fs : List FileExp) : Nat → Nat → Bytes → Option CpioErr
   | 0, _, _ => some .trailer
   | fuel + 1, start, bs =>
-    match Cpio.readerNew sizes bs with
-    | .ok (.cpio e, fileSize, r) =>
-      if e.name = trailerName then none else
-      match findFile fs start e.name with
+    match readEntry bs with
+    | some (.newc name mode nlink size, r) =>
+      if name = trailerName then none else
+      match findFile fs start name with
       | none => some .order
       | some i =>
         match fs[i]? with
         | none => some .order
         | some f =>
-          if e.mode % 65536 ≠ f.mode then some .entry
-          else if fileSize ≠ f.size ∧ ¬ (e.nlink > 1 ∧ fileSize = 0) then some .entry
-          else match Cpio.readData fileSize r with
-            | .ok (_, r') => cpioCheckForeign sizes fs fuel (i + 1) r'
-            | _ => some .entry
-    | .ok (.stripped idx, fileSize, r) =>
-      if idx < start ∨ idx ≥ fs.length then some .order
-      else match Cpio.readData fileSize r with
-        | .ok (_, r') => cpioCheckForeign sizes fs fuel (idx + 1) r'
-        | _ => some .entry
-    | _ => some .entry
+          if mode % 65536 ≠ f.mode then some .entry
+          else if size ≠ f.size ∧ ¬ (nlink > 1 ∧ size = 0) then some .entry
+          else match skipData size r with
+            | some r' => cpioCheckForeign fs fuel (i + 1) r'
+            | none => some .entry
+    | some (.stripped idx, r) =>
+      if idx = 4294967295 then none
+      else if idx < start then some .order
+      else match fs[idx]? with
+        | none => some .order
+        | some f => match skipData f.size r with
+          | some r' => cpioCheckForeign fs fuel (idx + 1) r'
+          | none => some .entry
+    | none => some .entry
 
 def cpioViolationForeign (h : Header) (arch : Bytes) : Option CpioErr :=
   match headerFiles h with
   | none => some .entry
-  | some fs => cpioCheckForeign (fs.map (·.size)) fs (fs.length + 1) 0 arch
+  | some fs => cpioCheckForeign fs (fs.length + 1) 0 arch
 
 /-- does the archive name its first file with the "./" prefix? -/
 def archivePrefixed (arch : Bytes) : Bool :=
-  match Cpio.readerNew [] arch with
-  | .ok (.cpio e, _, _) => e.name ≠ trailerName && (e.name.take 2 == [46, 47])
+  match readEntry arch with
+  | some (.newc name _ _ _, _) => name ≠ trailerName && (name.take 2 == [46, 47])
   | _ => false
 
 structure ForeignValid (bytes : Bytes) (p : Package) (arch : Bytes) : Prop where
   lead : LeadValid p.md.lead
   sig : HeaderValid 62 p.md.signature
+  siglim : SigLimits p.md.signature
   hdr : HeaderValid 63 p.md.header
+  tagtypes : TagTypesOk p.md.header
   pad : SigPadding bytes p.md.signature
   magic : CompressorMagic p.md.header p.content
+  flags : PayloadFlagsOk p.md.header
   rpmlib : RpmlibDeclared p.md.header (archivePrefixed arch)
   cpio : cpioViolationForeign p.md.header arch = none
 
 instance (bytes : Bytes) (p : Package) (arch : Bytes) : Decidable (ForeignValid bytes p arch) :=
-  decidable_of_iff (LeadValid p.md.lead ∧ HeaderValid 62 p.md.signature ∧ HeaderValid 63 p.md.header ∧
-     SigPadding bytes p.md.signature ∧ CompressorMagic p.md.header p.content ∧
-     RpmlibDeclared p.md.header (archivePrefixed arch) ∧ cpioViolationForeign p.md.header arch = none)
-  ⟨fun ⟨a, b, c, d, e, f, g⟩ => ⟨a, b, c, d, e, f, g⟩, fun v => ⟨v.lead, v.sig, v.hdr, v.pad, v.magic, v.rpmlib, v.cpio⟩⟩
+  decidable_of_iff (LeadValid p.md.lead ∧ HeaderValid 62 p.md.signature ∧ SigLimits p.md.signature ∧ HeaderValid 63 p.md.header ∧
+     TagTypesOk p.md.header ∧ SigPadding bytes p.md.signature ∧ CompressorMagic p.md.header p.content ∧
+     PayloadFlagsOk p.md.header ∧ RpmlibDeclared p.md.header (archivePrefixed arch) ∧ cpioViolationForeign p.md.header arch = none)
+  ⟨fun ⟨a, b, c, d, e, f, g, h, i, j⟩ => ⟨a, b, c, d, e, f, g, h, i, j⟩,
+   fun v => ⟨v.lead, v.sig, v.siglim, v.hdr, v.tagtypes, v.pad, v.magic, v.flags, v.rpmlib, v.cpio⟩⟩
 
 def firstViolationForeign (bytes : Bytes) (p : Package) (arch : Bytes) : Option String :=
-  if ¬ LeadValid p.md.lead then some "lead"
-  else match headerViolation 62 p.md.signature with
+  match commonViolation bytes p with
   | some r => some r
-  | none => match headerViolation 63 p.md.header with
-    | some r => some r
-    | none =>
-      if ¬ SigPadding bytes p.md.signature then some "sig-padding"
-      else if ¬ CompressorMagic p.md.header p.content then some "compressor-magic"
-      else if ¬ RpmlibDeclared p.md.header (archivePrefixed arch) then some "rpmlib"
-      else (cpioViolationForeign p.md.header arch).map CpioErr.name
+  | none =>
+    if !allDeclared p.md.header (structFeatures p.md.header (archivePrefixed arch)) then some "rpmlib"
+    else match cpioViolationForeign p.md.header arch with
+    | some e => some e.name
+    | none => contentViolation p.md.header
 
 end RpmVerif.RpmValid
